@@ -237,6 +237,50 @@ def golden_cases(res, base, r):
                     })
 
 
+TIMEOUT_GOLDEN_VARIANTS = [
+    (['--strategy', 'ddmin'], []),
+    (['--strategy', 'ddmin'], ['--ignore-out']),
+    (['--strategy', 'hierarchical'], ['--ignore-err']),
+    (['--strategy', 'hierarchical', '-j', '3'], []),
+    (['--strategy', 'ddmin', '-j', '3'], ['--ignore-output']),
+    (['--strategy', 'hybrid'], []),
+]
+
+
+def golden_timeout_case(res, base, k):
+    """The golden run itself exceeds the (explicit) limit: a candidate is
+    accepted exactly when it ends the same way - whatever of the two streams
+    is compared - so minimisation proceeds and keeps what makes the command
+    hang."""
+    text = ('(declare-const a Int)\n(declare-const b Int)\n'
+            '(assert (> a 1))\n(assert (< b 2))\n(check-sat)\n')
+    strat, cmpopts = TIMEOUT_GOLDEN_VARIANTS[k % len(TIMEOUT_GOLDEN_VARIANTS)]
+    rules = [realrun.rule('has:a', 0, '', '', fault='sleep'),
+             realrun.rule('all', 0, 'ok\n', '')]
+    opts = strat + ['--timeout', '0.4', '--disable-all', '--erase-node'] + \
+        cmpopts
+    run = realrun.run_ddsmt(os.path.join(base, f'gt{k}'), text, rules,
+                            opts=opts,
+                            launcher={'monitors': ['check', 'exec']})
+    desc = {'case': 'golden-timeout', 'input': text, 'rules': rules,
+            'fault': 'sleep', 'strategy': strat[1], 'jobs': 1,
+            'timeout': 0.4}
+    judge(res, run, 0.4, desc, golden_fault='sleep')
+    res.count('golden_fault_cases')
+    res.count('golden_timeout_cases')
+    if run.timed_out:
+        return
+    out = (run.out_bytes or b'').decode()
+    toks = out.replace('(', ' ').replace(')', ' ').split()
+    if run.rc != 0 or 'a' not in toks or 'b' in toks:
+        res.violation(
+            'timeout-minimisation-wrong',
+            f'the golden run exceeds the time limit iff token a is present '
+            f'({" ".join(opts)}); expected a reduced file keeping a and '
+            f'dropping b, got rc={run.rc} output {out!r}',
+            {'opts': opts, 'stderr': run.stderr[-500:]})
+
+
 def golden_cc_cases(res, base):
     """The same rule for the cross-check command's golden run."""
     text = ('(declare-const a Int)\n(declare-const b Int)\n'
@@ -269,6 +313,8 @@ def shard(args):
             golden_cases(res, base, r)
         if args['shard'] == 1:
             golden_cc_cases(res, base)
+        if args['shard'] >= 2:
+            golden_timeout_case(res, base, args['shard'] - 2)
         for i in range(args['n']):
             text, rules, opts, limit, desc = make_case(r)
             wd = os.path.join(base, f'run{i}')
@@ -324,6 +370,12 @@ def replay(data):
     try:
         for k, c in enumerate(data['cases']):
             w = c['witness']
+            if data.get('key') == 'timeout-minimisation-wrong':
+                for i, (st, co) in enumerate(TIMEOUT_GOLDEN_VARIANTS):
+                    if st + ['--timeout', '0.4', '--disable-all',
+                             '--erase-node'] + co == w.get('opts'):
+                        golden_timeout_case(res, base, i)
+                continue
             if 'input' not in w:
                 continue
             run = realrun.run_ddsmt(os.path.join(base, f'r{k}'), w['input'],
